@@ -34,15 +34,16 @@ def run_one(tag, uni, us, states, maxeqs, policy, eager, workers=4, timeout=1500
 
 
 def run_tier(tier, tables, tag):
-    """design-level refinement EGraphOp => SlottedCC over the hand-written universes; returns a
+    """design-level refinement EGraphOp => SlottedCC over the hand-written and the seeded random universes; returns a
     coverage dict; raises ToolError when the two models disagree"""
     import concurrent.futures
     jobs = []
     for u, (uni, tpath, st, states, upath) in tables.items():
-        if not u.startswith("U"):
-            continue
         us = json.load(open(tpath))["us"]
-        top = 2 if (tier == "thorough" or u in ("U4", "U5")) else 1
+        if not u.startswith("U"):          # seeded random universes: small, <=2 (quick) / <=3 (thorough) equations
+            top = 2 if tier == "quick" else 3
+        else:
+            top = 2 if (tier == "thorough" or u in ("U4", "U5")) else 1
         for pol in ("fifo", "lifo"):
             for eager in ((True, False) if tier == "thorough" else (True,)):
                 me = top if (pol == "fifo" or tier == "thorough") else 1
